@@ -5,10 +5,10 @@ ID=$1; shift
 W=/tmp/seedrun-$ID
 git -C /repo worktree remove --force $W 2>/dev/null; rm -rf $W /tmp/vb-$ID
 git -C /repo worktree add -q --detach $W ${BASE:-HEAD} || exit 2
-git -C $W apply /verif/seeded/$ID/patch.diff || { echo "PATCH DOES NOT APPLY"; git -C /repo worktree remove --force $W; exit 2; }
+git -C $W apply "$(dirname "$(readlink -f "$0")")/../seeded/$ID/patch.diff" || { echo "PATCH DOES NOT APPLY"; git -C /repo worktree remove --force $W; exit 2; }
 export VERIF_REPO=$W VERIF_BUILD_DIR=/tmp/vb-$ID VERIF_REPLAY_DIR=/tmp/vr-$ID VERIF_EVIDENCE_DIR=/tmp/ve-$ID
 mkdir -p $VERIF_REPLAY_DIR $VERIF_EVIDENCE_DIR
-cd /verif
+cd "$(dirname "$(readlink -f "$0")")/.."
 for P in "$@"; do
   ./vcheck run $P --tier ${TIER:-quick} > /tmp/seedrun-$ID-$P.out 2>&1; rc=$?
   echo "== $ID vs $P: exit $rc"; grep -E "^VIOLATION|signature:|KNOWN|TROUBLE|runs," /tmp/seedrun-$ID-$P.out | sort | uniq -c | sort -rn | head -${SHOW:-8}
